@@ -264,10 +264,14 @@ Definition str_of_Z (z : Z) : pstr :=
 (* ---- types -------------------------------------------------------------- *)
 Inductive sty :=
 | SStr | SInt | SFloat | SBool | SBytes | SDateTime | SDate | STime | STimedelta | SDecimal
-| SEnum (members : list (jv * pstr)).          (* (value, member name) in definition order *)
+| SEnum (members : list (jv * pstr))           (* (value, member name) in definition order *)
+| SStrEnum (members : list (jv * pstr)).       (* class X(str, Enum) / enum.StrEnum: a str subclass *)
 
-Inductive kty := KStr | KInt.                    (* dict key annotations in the model *)
-Definition sty_of_kty (k : kty) : sty := match k with KStr => SStr | KInt => SInt end.
+(* dict key annotations in the model: dict KEYS are coercion positions too (str, int, and Enum /
+   str-mixin Enum / StrEnum classes, all loaded by value) *)
+Inductive kty := KStr | KInt | KEnum (members : list (jv * pstr)) | KStrEnum (members : list (jv * pstr)).
+Definition sty_of_kty (k : kty) : sty :=
+  match k with KStr => SStr | KInt => SInt | KEnum ms => SEnum ms | KStrEnum ms => SStrEnum ms end.
 
 Inductive ty :=
 | TS (s : sty)
@@ -533,6 +537,10 @@ Definition load_scalar (e : engine) (s : sty) (j : jv) : res pv :=
   | STimedelta => rmap VTimedelta (as_timedelta j)
   | SDecimal => rmap VDecimal (match e with V1 => load_decimal_v1 j | _ => load_decimal_v0 j end)
   | SEnum ms => rmap VEnum (enum_lookup ms j)
+  | SStrEnum ms =>
+      (* default engine / Env: the Enum hook X(o).  v1: a str subclass takes the str template
+         `X() if o is None else X(o)`, and X() is a TypeError *)
+      rmap VEnum (match e, j with V1, JNone => Err EType | _, _ => enum_lookup ms j end)
   end.
 
 (* ---- EnvWizard string splitting (type_conv.as_list / as_dict) ---------- *)
@@ -601,6 +609,7 @@ Definition key_eqb (a b : pv) : bool :=
   match a, b with
   | VStr x, VStr y => pstr_eqb x y
   | VInt x, VInt y => Z.eqb x y
+  | VEnum x, VEnum y => pstr_eqb x y
   | _, _ => false
   end.
 
